@@ -110,7 +110,7 @@ struct Shared {
     Stats st;
     uint32_t nviol; char viol[10][200]; char detail[1500];
     uint32_t ntrace; uint32_t trace[1 << 14];
-    uint64_t ops_done, ops_ok, ops_err, faults_fired, host_calls, extra_guest_writes, tree_compares;
+    uint64_t ops_done, ops_ok, ops_err, faults_fired, host_calls, extra_guest_writes, tree_compares, par_calls;
     uint64_t fault_kind[F_KIND_COUNT];
     char fatal[400];
     int cur_op;
@@ -134,7 +134,8 @@ static bool g_dtype_unknown = false;
 static uint64_t g_entropy_state = 1;
 static std::vector<uint8_t>* g_entropy_log = nullptr;
 
-static inline bool sut() { return sim::in_sut() && sim::active(); }
+// every intercepted libc call made by the SUT is a scheduling point (the moment between marshalling arguments and the host call)
+static inline bool sut() { bool in = sim::in_sut() && sim::active(); if (in) sim::yield(Y_IO, 0); return in; }
 static void note(const char* call, const char* path, int fd, long ret) { if (g_calls) g_calls->push_back(HostCall{call, path ? path : "", fd, ret}); if (S) S->host_calls++; }
 // returns fault errno/param if the op's attached fault targets this call instance
 static bool fault_here(const char* call, int64_t* param) {
